@@ -49,6 +49,17 @@ LineOf(a, pos) ==
     [] a = 13 -> Assign(FooBar, LitL(KindLit(pos + 3, 4)))
     [] a = 14 -> Assign(FooBar, Use(<<W(Qux)>>))
     [] a = 15 -> Use(<<W(FooBar), TOp("*"), NumTok(2)>>)
+    \* computing with bound values of other kinds
+    [] a = 16 -> Assign(Qux, LitL(Money(QInt(10 * pos + 5), "usd")))
+    [] a = 17 -> Assign(Foo, LitL(UnitQ(QInt(10 * pos), "km")))
+    [] a = 18 -> Assign(FooBar, LitL(Dur(0, 600 * pos)))
+    [] a = 19 -> Assign(Foo, LitL(Pct(QInt(pos + 5))))
+    [] a = 20 -> Use(<<W(Qux), TOp("+"), W(Qux)>>)
+    [] a = 21 -> Use(<<W(Qux), TOp("*"), NumTok(3)>>)
+    [] a = 22 -> Use(<<W(Foo), TOp("/"), NumTok(4)>>)
+    [] a = 23 -> Use(<<W(FooBar), TOp("-"), W(FooBar)>>)
+    [] a = 24 -> Use(<<W(Qux), TOp("+"), W(Foo)>>)
+    [] a = 25 -> Assign(FooBar, Use(<<W(Qux), TOp("-"), W(Foo)>>))
 
 VARIABLE prog
 Init == prog = <<>>
